@@ -114,6 +114,22 @@ def run_case(case, ctx):
 				what = f'{tname}/bare'
 				got = _call(lambda: calc_signature(kspec, conv(seqs[0])), what, case)
 				_compare(np, got, exp, k, what, case)
+		# find_kmers: the valid k-mers of the yielded matches are exactly the definitional ones, sequence by sequence
+		from gambit.kmers import find_kmers
+		for si, sq in enumerate(seqs):
+			exp_one = set(R.ref_signature([sq], k, pb))
+			got_one = set()
+			for m in _call(lambda: list(find_kmers(kspec, sq)), 'find_kmers', case):
+				km = bytes(_call(m.kmer, 'KmerMatch.kmer', case))
+				if len(km) != k:
+					raise Violation('match_length', f'find_kmers yielded a match whose k-mer {km!r} has length {len(km)} != {k} (pos {m.pos}, reverse {m.reverse})', case)
+				idx = R.ref_index(km)
+				if idx is not None:
+					got_one.add(idx)
+					if _call(m.kmer_index, 'KmerMatch.kmer_index', case) != idx:
+						raise Violation('match_index', f'KmerMatch.kmer_index() != index of KmerMatch.kmer() {km!r}', case)
+			if got_one != exp_one:
+				raise Violation('find_kmers', f'sequence {si}: k-mers of find_kmers matches {sorted(got_one)[:8]} != definitional {sorted(exp_one)[:8]}', case)
 		# generator input (calc_file_signature passes a generator)
 		got = _call(lambda: calc_signature(kspec, (s for s in seqs)), 'generator', case)
 		_compare(np, got, exp, k, 'generator', case)
